@@ -49,4 +49,33 @@ def goodLines (s : List Byte) : List (List Byte) := canonLines (s.length + 1) s
 
 example : goodLines [97, 13, 10, 98, 10, 99, 13, 10] = [[97], [99]] := by decide
 
+/-! ### the DATA phase on the stream alone -/
+
+/-- The framing of DATA as a function of the stream: follow the canonical reader; a skipped stretch
+(stray CR/LF, over-long line) makes the message refusable for good; the phase ends at the first
+line that is a single dot. -/
+inductive FrameEnd where
+  | queued | refused | died
+  deriving Repr, DecidableEq
+
+structure Frame where
+  verdict : FrameEnd
+  lines : List (List Byte)
+  rest : List Byte
+  deriving Repr, DecidableEq
+
+def frameData : Nat → List Byte → Bool → List (List Byte) → Frame
+  | 0, p, _, acc => ⟨.died, acc, p⟩
+  | f + 1, p, dr, acc =>
+    match scan p with
+    | .dead => ⟨.died, acc, []⟩
+    | .skip r => frameData f r true acc
+    | .line l r =>
+      if l = [DOT] then ⟨if dr then .refused else .queued, acc, r⟩
+      else frameData f r dr (if dr then acc else acc ++ [l])
+
+/-- the result that matters: verdict, lines, and (unless the stream ended) what is left -/
+def Frame.same (a b : Frame) : Prop :=
+  a.verdict = b.verdict ∧ a.lines = b.lines ∧ (a.verdict ≠ .died → a.rest = b.rest)
+
 end QsmtpModel.Netio
